@@ -81,18 +81,18 @@ def completeEdgesWith (g : HardGuard) (name : String) (flagsBefore emptyFirst : 
   if emptyFirst && r.faces.isEmpty then r
   else
     { r with
-      edges := completeBy keyE r.edges (r.faces.flatMap faceSides),
+      edges := completeBy keyE r.edges (validSides r.verts.length r.faces),
       eattrs :=
         (match g with
           | .ifAbsent =>
             if hasAttr r.eattrs name then r.eattrs
             else r.eattrs ++ [flagAttr name (if flagsBefore then r.edges.length
-                                else (completeBy keyE r.edges (r.faces.flatMap faceSides)).length)]
+                                else (completeBy keyE r.edges (validSides r.verts.length r.faces)).length)]
           | .always =>
             r.eattrs.filter (fun (a : Attr) => a.name != name) ++
               [flagAttr name (if flagsBefore then r.edges.length
-                                else (completeBy keyE r.edges (r.faces.flatMap faceSides)).length)]).map
-        (expandAttr ((completeBy keyE r.edges (r.faces.flatMap faceSides)).length - r.edges.length)) }
+                                else (completeBy keyE r.edges (validSides r.verts.length r.faces)).length)]).map
+        (expandAttr ((completeBy keyE r.edges (validSides r.verts.length r.faces)).length - r.edges.length)) }
 
 /-! ### corner appends -/
 
